@@ -30,10 +30,10 @@ def generate(tier, rng):
         sc = gen.pick_scale(rng, decimal_share=0.5)
         big = 60 if sc[0] == "dyadic" else 3000
         if rng.random() < 0.85:
-            t = gen.random_itier(rng, tmax=big, maxn=8, long_p=0.015)
+            t = gen.random_itier(rng, tmax=big, maxn=8, long_p=0.03)
             op = rng.choice(["space", "space_erase"])
         else:
-            t = gen.random_ptier(rng, tmax=big, long_p=0.015, distinct=rng.random() < 0.75)
+            t = gen.random_ptier(rng, tmax=big, long_p=0.03, distinct=rng.random() < 0.75)
             op = "space"
         d = rng.randint(1, big // 3)
         if rng.random() < 0.12:
